@@ -18,8 +18,8 @@ var profC05 = &hist.Profile{
 	Ordered: 85, Keys: []string{"", "K1", "K1", "K2", "K2", "K3"},
 	DLPercent: 20, Attempts: []int{1, 2}, Retry: 50,
 	MinBs: []time.Duration{100 * ms, sec, 10 * sec}, MaxBs: []time.Duration{0, sec, 600 * sec},
-	Rets:     []time.Duration{0, 0, 10 * time.Minute},
-	NoSelfDL: true, AllowPruneCompleted: true,
+	Rets:     []time.Duration{0, 10 * time.Minute, 10 * time.Minute},
+	NoSelfDL: true, AllowPruneCompleted: true, TargetExpiry: true,
 	Prelude: func(t *rapid.T, g *hist.Gen) {
 		g.R.Step(hist.Op{K: hist.OpCreateTopic, T: "t0"})
 		g.R.Step(hist.Op{K: hist.OpCreateTopic, T: "t1"})
